@@ -44,6 +44,16 @@ def make_param(eng, name, spec):
         return s
     if isinstance(spec, tuple) and spec and spec[0] == 'const':
         return spec[1]
+    if isinstance(spec, tuple) and spec and spec[0] == 'obj':
+        # ('obj', class name, {attr: shape}[, 'rel/path.py'])  - record with symbolic fields; with a path the object is an
+        # instance of that repo class (its real methods are used)
+        info = eng.loader.classref(spec[3], spec[1]) if len(spec) > 3 and spec[3] else None
+        attrs = {a: make_param(eng, '%s.%s' % (name, a), sh) for a, sh in spec[2].items()}
+        return E.Obj(spec[1], attrs, info=info)
+    if isinstance(spec, tuple) and spec and spec[0] == 'symlist':
+        from .symlist import SymList
+        return SymList.fresh(spec[1], spec[2] if len(spec) > 2 else None, name, eng=eng,
+                             wrap=spec[3] if len(spec) > 3 else None, unwrap=spec[4] if len(spec) > 4 else None)
     if isinstance(spec, tuple) and spec and spec[0] == 'symdict':
         from .symdict import SymDict
         return SymDict(spec[1], spec[2], name=name)
@@ -76,6 +86,13 @@ def model_value(model, v, depth=0):
         return [model_value(model, v.get(i)) for i in range(n)]
     if isinstance(v, GenResult):
         return model_value(model, v.items)
+    if type(v).__name__ == 'SymList':
+        items = model_value(model, v.seq)
+        if v.wrap is not None:
+            items = [{'__obj__': 'elem', 'attrs': {'idx': x}} for x in items]
+        return items
+    if type(v).__name__ == 'SymDict':
+        return '<symbolic dict>'
     if isinstance(v, E.Obj):
         d = {'__obj__': v.cls, 'attrs': {k: model_value(model, x) for k, x in v.attrs.items()
                                          if not k.startswith('_vc')}}
@@ -83,6 +100,20 @@ def model_value(model, v, depth=0):
             d['attrs']['_vc_tags'] = {t: [model_value(model, p), model_value(model, val)]
                                       for t, (p, val) in v.attrs['_vc_tags'].items()}
         return d
+    return v
+
+
+def snapshot_value(v, depth=0):
+    """entry-state copy of a parameter value (containers mutated in place keep their entry contents here)."""
+    if hasattr(v, 'vc_snapshot'):
+        return v.vc_snapshot()
+    if isinstance(v, E.Obj) and depth < 3:
+        o = E.Obj(v.cls, {k: snapshot_value(x, depth + 1) for k, x in v.attrs.items()}, info=v.info)
+        return o
+    if isinstance(v, dict) and depth < 3:
+        return {k: snapshot_value(x, depth + 1) for k, x in v.items()}
+    if isinstance(v, list) and depth < 3:
+        return [snapshot_value(x, depth + 1) for x in v]
     return v
 
 
@@ -125,7 +156,59 @@ def solve(pc, goal, timeout_ms, want_model=True):
         if s.check() == z3.sat:
             return 'sat', s.model(), 'cvc5+z3', time.time() - t0
         return 'sat', None, 'cvc5', time.time() - t0
+    # undecided with quantified hypotheses: bounded search for a *candidate* counter-model (finite instantiation of
+    # the quantified hypotheses, sequence lengths <= 4).  A candidate is never trusted: it only counts when the
+    # replay on the real code confirms it.
+    m = candidate_search(pc, goal)
+    if m is not None:
+        return 'candidate', m, 'z3(bounded candidate search)', time.time() - t0
     return 'unknown', None, 'z3+cvc5', dt + dt2
+
+
+def candidate_search(pc, goal, bound=4, timeout_ms=15000):
+    s = z3.Solver()
+    s.set('timeout', timeout_ms)
+    consts = {}
+    todo = list(pc) + [goal]
+    seen = set()
+    while todo:
+        x = todo.pop()
+        if x.get_id() in seen:
+            continue
+        seen.add(x.get_id())
+        if z3.is_const(x) and x.decl().kind() == z3.Z3_OP_UNINTERPRETED and z3.is_int(x):
+            consts[x.decl().name()] = x
+        if z3.is_quantifier(x):
+            todo.append(x.body())
+        else:
+            todo.extend(x.children())
+    for name, cst in consts.items():
+        if name.endswith('.len'):
+            s.add(cst <= bound)
+
+    def inst(f):
+        if z3.is_quantifier(f) and f.is_forall():
+            n = f.num_vars()
+            if n > 2 or any(f.var_sort(i) != z3.IntSort() for i in range(n)):
+                return []
+            import itertools as it
+            out = []
+            for vals in it.product(range(-1, bound + 2), repeat=n):
+                out.append(z3.substitute_vars(f.body(), *[z3.IntVal(v) for v in reversed(vals)]))
+            return out
+        if z3.is_and(f):
+            r = []
+            for ch in f.children():
+                r += inst(ch)
+            return r
+        return [f] if not _has_quantifier(f) else []
+    for p in pc:
+        for g in inst(p):
+            s.add(g)
+    s.add(z3.Not(strip_foralls(goal)))
+    if s.check() == z3.sat:
+        return s.model()
+    return None
 
 
 _skolem_ctr = [0]
@@ -207,7 +290,7 @@ class Contract:
                  yield_checks=None, cases=None, result=None, callees=(), name=None, setup=None, replay=None,
                  replay_args=None, assumptions=(), self_obj=None, timeout_ms=None, crosscheck=None,
                  call_raises_exact=False, exit_checks=None, frame_locals=False, pre_state=None,
-                 replay_ensures=None, bounded=None, tiers=None, max_paths=4000):
+                 replay_ensures=None, bounded=None, tiers=None, max_paths=4000, block=None):
         self.prop = prop
         self.target = target
         self.relpath, self.qualname = target.split('::')
@@ -234,6 +317,7 @@ class Contract:
         # clauses evaluated only natively during replay (computable restatements of per-iteration obligations)
         self.replay_ensures = dict(replay_ensures or {})
         self.tiers = tiers
+        self.block = block      # fn(FunctionDef) -> list of statements: verify a block inside a large function
         self.max_paths = max_paths
         self.bounded = bounded     # text of the bound when this unit is a bounded stand-in (not counted as proved)
 
@@ -329,7 +413,10 @@ class Verifier:
             if isinstance(n, (ast.For, ast.While)):
                 loop_ids[id(n)] = None
         # ast.walk is breadth-first; order loops by source position instead
-        loops_sorted = sorted((n for n in ast.walk(fref.node) if isinstance(n, (ast.For, ast.While))),
+        body_stmts = c.block(fref.node) if c.block else fref.node.body
+        if not body_stmts:
+            raise Unsupported('block anchor not found in %s (contract needs re-anchoring)' % c.target)
+        loops_sorted = sorted((n for st in body_stmts for n in ast.walk(st) if isinstance(n, (ast.For, ast.While))),
                               key=lambda n: (n.lineno, n.col_offset))
         loop_ids = {id(n): i for i, n in enumerate(loops_sorted)}
         groups = {}     # obligation name -> list of instances
@@ -347,6 +434,7 @@ class Verifier:
             eng.module_value_cache = {}
             E._fresh_counter = E.itertools.count()   # deterministic names per path
             params = {}
+            params_entry = {}
             outcome = None
             try:
                 shapes = dict(c.params)
@@ -356,10 +444,14 @@ class Verifier:
                 case_yield_checks = shapes.pop('__yield_checks__', {})
                 for name, spec in shapes.items():
                     params[name] = make_param(eng, name, spec)
+                params_entry = {k: snapshot_value(v) for k, v in params.items()}
                 a_ = fref.node.args
                 fn_params = {x.arg for x in a_.posonlyargs + a_.args + a_.kwonlyargs}
-                env = eng.bind_args(fref.node, [], {k: v for k, v in params.items() if k in fn_params}, None,
-                                    fref.mod, None)
+                if c.block:
+                    env = {k: v for k, v in params.items() if k in fn_params}
+                else:
+                    env = eng.bind_args(fref.node, [], {k: v for k, v in params.items() if k in fn_params}, None,
+                                        fref.mod, None)
                 env.update({k: v for k, v in params.items() if k not in fn_params})
                 for k, v in params.items():
                     env['old!' + k] = v
@@ -376,7 +468,9 @@ class Verifier:
                     raise PathEnd()
                 requires_sat = True
                 if loader.is_generator(fref.node):
-                    if case_yields is None:
+                    if case_yields == 'checks-only':
+                        fr.yields = E.DiscardYields()
+                    elif case_yields is None:
                         fr.yields = []
                     else:
                         fr.yields = SymSeq.empty(case_yields[0], case_yields[1])
@@ -393,7 +487,7 @@ class Verifier:
                 eng.exit_checks = c.exit_checks
                 try:
                     eng.depth = 0
-                    eng.exec_block(fref.node.body, fr)
+                    eng.exec_block(body_stmts, fr)
                     outcome = ('return', None)
                 except _Return as r:
                     outcome = ('return', r.value)
@@ -406,7 +500,7 @@ class Verifier:
                     # parameters in postconditions denote their values at entry (python may rebind them)
                     extra = dict(params)
                     extra['result'] = result
-                    if fr.yields is not None:
+                    if fr.yields is not None and not isinstance(fr.yields, E.DiscardYields):
                         extra['Y'] = fr.yields
                     for nm, text in c.ensures.items():
                         g = eng.spec_eval(text, fr, extra=extra)
@@ -429,7 +523,7 @@ class Verifier:
                 pass
             npaths += 1
             for ob in eng.obligations:
-                ob.info['params'] = params
+                ob.info['params'] = params_entry
                 ob.info['case'] = ci
                 ob.info['witness'] = dict(eng.witness)
                 if ob.name not in groups:
@@ -465,8 +559,16 @@ class Verifier:
                 if v == 'sat':
                     verdict = 'refuted'
                     cex = self.counterexample(ob, model)
+                    if any(_has_quantifier(p) for p in ob.pc):
+                        # models of quantified formulas are often not concretisable: also look for a small witness
+                        m2 = candidate_search(ob.pc, ob.goal)
+                        if m2 is not None:
+                            cex['alt'] = self.counterexample(ob, m2)
                     break
-                if v == 'unknown':
+                if v == 'candidate':
+                    verdict = 'candidate'
+                    cex = self.counterexample(ob, model)
+                if v == 'unknown' and verdict != 'candidate':
                     verdict = 'unknown'
             res['obligations'].append({'id': '%s/case%d/%s' % (c.uid, ci, name) if len(c.cases) > 1 else '%s/%s' % (c.uid, name),
                                        'kind': insts[0].kind, 'result': verdict, 'backend': '+'.join(sorted(backend)) or 'simplify',
@@ -487,11 +589,11 @@ class Verifier:
                     break
             if first is not None:
                 v, _, _, _ = solve(first.pc, z3.BoolVal(False), 5000)
-                if v == 'unknown':
+                if v in ('unknown', 'candidate'):
                     # quantified hypotheses (callee contracts / invariants): decide the quantifier-free part
                     qf = [p for p in first.pc if not _has_quantifier(p)]
-                    v, _, _, _ = solve(qf, z3.BoolVal(False), 5000)
-                can = 'discharged' if v == 'sat' else 'failed'
+                    v, _, _, _ = solve(qf, z3.BoolVal(False), 20000)
+                can = 'discharged' if v in ('sat', 'candidate') else 'failed'
             else:
                 can = 'discharged' if requires_sat else 'failed'
         res['obligations'].append({'id': '%s/case%d/vac.canary' % (c.uid, ci), 'kind': 'vacuity', 'result': can,
@@ -570,6 +672,9 @@ def call_real(c, inputs):
 
 
 def native_arg(v):
+    if isinstance(v, dict) and '__obj__' in v:
+        import types
+        return types.SimpleNamespace(**{k: native_arg(x) for k, x in v['attrs'].items()})
     if isinstance(v, Fraction):
         return float(v) if v.denominator != 1 else int(v)
     if isinstance(v, list):
@@ -586,9 +691,18 @@ def eval_clause_concrete(c, text, inputs, extra):
     eng.module_value_cache = {}
     eng.used_contracts = set()
     m = loader.module_by_relpath(c.relpath)
-    env = dict(inputs)
-    for k, v in inputs.items():
-        env['old!' + k] = v
+
+    def conv(v):
+        if isinstance(v, dict) and '__obj__' in v:
+            return E.Obj(v['__obj__'], {k: conv(x) for k, x in v['attrs'].items()})
+        if isinstance(v, list):
+            return [conv(x) for x in v]
+        if isinstance(v, tuple):
+            return tuple(conv(x) for x in v)
+        return v
+    env = {k: conv(v) for k, v in inputs.items()}
+    for k in list(env):
+        env['old!' + k] = env[k]
     env.update(extra)
     fr = Frame('<replay>', m, env)
     try:
@@ -612,10 +726,19 @@ def eval_clause_concrete(c, text, inputs, extra):
     return (bool(t) if isinstance(t, bool) else None), None
 
 
-def replay_counterexample(c, ob_rec):
+def replay_counterexample(c, ob_rec, _alt=False):
     """Replay a refuted obligation's counter-model against the real code.
     -> dict(status='confirmed'|'not-reproduced'|'no-input', ...)"""
     cex = ob_rec.get('cex') or {}
+    if cex.get('alt') and not _alt:
+        first = replay_counterexample(c, ob_rec, _alt=True)
+        if first.get('status') == 'confirmed':
+            return first
+        second = replay_counterexample(c, {'cex': cex['alt'], 'clause': ob_rec.get('clause', '')}, _alt=True)
+        if second.get('status') == 'confirmed':
+            second['note'] = 'small witness from the bounded candidate search (the solver model itself did not replay)'
+            return second
+        return first
     inputs = cex.get('_raw_inputs')
     if inputs is None:
         return {'status': 'no-input', 'note': cex.get('note', 'no model')}
